@@ -52,6 +52,8 @@ func Scenarios(tier string) []Scenario {
 		{Name: "call||reset", Methods: 1, Resets: true, Progs: [][]POp{prog(call("A")), prog(reset("A"))}},
 		{Name: "call||resetall", Methods: 2, Resets: true, Progs: [][]POp{prog(call("A"), call("B")), prog(resetall())}},
 		{Name: "reset||calls", Methods: 1, Resets: true, Progs: [][]POp{prog(call("A"), reset("A")), prog(calls("A"))}},
+		{Name: "call;reset;call||calls", Methods: 1, Resets: true, Progs: [][]POp{prog(call("A"), reset("A"), call("A")), prog(calls("A"))}},
+		{Name: "call;resetall;call||calls", Methods: 1, Resets: true, Progs: [][]POp{prog(call("A"), resetall(), call("A")), prog(calls("A"))}},
 		{Name: "resetall||resetall", Methods: 2, Resets: true, Progs: [][]POp{prog(call("A"), resetall()), prog(resetall(), calls("B"))}},
 		{Name: "cb-calls||call", Methods: 1, Progs: [][]POp{prog(call("A", "calls", "A")), prog(call("A"))}},
 		{Name: "cb-recurse||calls", Methods: 1, Progs: [][]POp{prog(call("A", "call", "A")), prog(calls("A"))}},
@@ -87,6 +89,7 @@ type concJob struct {
 	MaxRuns  int               `json:"maxRuns"`
 	Seed     int64             `json:"seed"`
 	Graph    bool              `json:"graph"`
+	AllGates bool              `json:"allGates"`
 }
 
 type concResult struct {
@@ -104,6 +107,7 @@ type concResult struct {
 	HeldAtCb   []string       `json:"heldAtCb"`
 	Fatal      []string       `json:"fatal"`
 	ForeignG   int            `json:"foreignG"`
+	Stale      []string       `json:"stale"`
 	Infra      string         `json:"infra"`
 }
 
@@ -224,14 +228,11 @@ func runConc(prop, tier string, sc *core.Scratch, ev *core.Evidence, rep *core.R
 			if len(mps) == 0 {
 				continue
 			}
-			// quick: one mapping per (mock, scenario), rotating; thorough: up to 4
-			k := 1
-			if tier == "thorough" {
-				k = 4
-			}
-			for j := 0; j < k && j < len(mps); j++ {
-				mp := mps[(si+vi+j*7+int(core.Seed()))%len(mps)]
-				jobs = append(jobs, concJob{Mock: mk.Key, Scenario: scn.Name, Map: mp, Progs: scn.Progs, MaxRuns: maxRuns, Seed: core.Seed()})
+			// quick: one mapping per shape class of the subject method A (rotating
+			// inside the class); thorough: every method as A
+			for _, mp := range pickMappings(mod, mk, mps, tier, si+vi+int(core.Seed())) {
+				jobs = append(jobs, concJob{Mock: mk.Key, Scenario: scn.Name, Map: mp, Progs: scn.Progs, MaxRuns: maxRuns, Seed: core.Seed(),
+					AllGates: tier == "thorough" && len(mk.Methods) <= 6})
 			}
 		}
 	}
@@ -297,6 +298,9 @@ func runConc(prop, tier string, sc *core.Scratch, ev *core.Evidence, rep *core.R
 				}
 				if len(r.Fatal) > 0 {
 					witness("crash inside generated code", r.Fatal)
+				}
+				if len(r.Stale) > 0 {
+					witness("a slice returned by an accessor changed afterwards", r.Stale)
 				}
 			}
 			if prop == "C06" {
@@ -422,4 +426,25 @@ func checkLin(sc *core.Scratch, ev *core.Evidence, rep *core.Reporter, prop stri
 		}
 	}
 	return violations, nil
+}
+
+func pickMappings(mod *Module, mk MockInfo, mps []map[string]string, tier string, rot int) []map[string]string {
+	if tier == "thorough" {
+		return mps
+	}
+	byClass := map[string][]map[string]string{}
+	var order []string
+	for _, mp := range mps {
+		c := mod.Class[mk.Iface.Name+"."+mp["A"]]
+		if _, ok := byClass[c]; !ok {
+			order = append(order, c)
+		}
+		byClass[c] = append(byClass[c], mp)
+	}
+	var out []map[string]string
+	for _, c := range order {
+		l := byClass[c]
+		out = append(out, l[((rot%len(l))+len(l))%len(l)])
+	}
+	return out
 }
